@@ -605,7 +605,7 @@ def e2e(ctx, scratch, quick):
             ref[(r[0], tuple(r[3]))] = o
     compared = agree_nonempty = agree_empty = rc_differs = 0
     fails = 0
-    form_hist, kind_hist = {}, {}
+    form_hist, kind_hist, fail_hist = {}, {}, {}
     nontriv = set()
     for r, o in zip(runs, outs):
         lab, flab, path, args, info, bs, n, kind = r
@@ -631,14 +631,14 @@ def e2e(ctx, scratch, quick):
         cls = []
         if flab.startswith("lz4") and info and lz4_misaligned(info["lz4_sizes"], bs, n):
             cls = ["lz4_frame_block_boundary_inside_read_block"]
-        if fails <= 40 or cls:
-            keep = os.path.join(vlib.ROOT, "replays", "C05-files")
+        fail_hist[(kind, flab, bs, bool(cls))] = fail_hist.get((kind, flab, bs, bool(cls)), 0) + 1
+        if True:
             ctx.failure(dict(level="stdout", payload=lab, kind=kind, form=flab, args=args, path=path, plain_path=ref_path(runs, lab),
                              n=n, blocksz=bs, info=info, plain_hex=(hx(open(ref_path(runs, lab), "rb").read()) if n <= 6000 else None)),
                         "stdout of the plain file (%d bytes, sha %s)" % (len(p[1]), vlib.hashlib.sha1(p[1]).hexdigest()[:12]),
                         "stdout %d bytes, sha %s, rc %d" % (len(o[1]), vlib.hashlib.sha1(o[1]).hexdigest()[:12], o[0]), cls)
     return dict(stdout_runs=len(runs), stdout_comparisons=compared, stdout_agree_nonempty=agree_nonempty, stdout_agree_empty=agree_empty,
-                stdout_exit_status_differs_with_equal_stdout=rc_differs, stdout_failures=fails, stdout_form_histogram=form_hist,
+                stdout_exit_status_differs_with_equal_stdout=rc_differs, stdout_failures=fails, stdout_failure_histogram={str(k): v for k, v in sorted(fail_hist.items())}, stdout_form_histogram=form_hist,
                 stdout_payload_kind_histogram=kind_hist, stdout_nontrivial=len(nontriv), payloads=len(payloads))
 
 
